@@ -185,6 +185,12 @@ def inject_linear(rng, t, n, K, p=0.35):
     """replace some FieldAdapter leaves by LINEAR differences (SumOperator with a negated summand), half of them
     routed through a MultiDomain target (`a.ducktape_left('x') - b.ducktape_left('x')`)"""
     if t[0] == "var":
+        if rng.random() < 0.15:
+            # product / sum of two multi-output (MultiDomain target) operators, non-linear or linear factors
+            def fac():
+                u = B.gen_linear(rng, int(rng.integers(0, 2)), n, K)
+                return ("ptw", "power", [2], u) if rng.random() < 0.6 else u
+            return ("mprod" if rng.random() < 0.7 else "msum", fac(), fac(), fac(), fac())
         if rng.random() < p:
             kind = "lsub" if rng.random() < 0.6 else "lsubf"
             a = B.gen_linear(rng, int(rng.integers(0, 3)), n, K)
@@ -464,8 +470,74 @@ def vcg_complex_signature(inp, f):
     return {"fn": "VariableCovarianceGaussianEnergy", "check": f[0], "complex": True, "use_full_fisher": bool(inp["uff"]), "wrap": inp["wrap"]}
 
 
+def kl_direct(inp):
+    """SampledKLEnergy(position, H, n_samples, None, constants=..., point_estimates=...) against an INDEPENDENT average
+    over its own samples of the ORIGINAL Hamiltonian on Linearization.make_partial_var(sample, constants): value (up to
+    the known StandardHamiltonian offset C04-F2), gradient, metric applied to random tangents; also after kl.at(...)."""
+    import nifty.cl as ift
+    quiet()
+    n, seed, consts, pes = inp["n"], inp["seed"], list(inp["constants"]), list(inp["point_estimates"])
+    dom = ift.UnstructuredDomain(n)
+    a, b, c = [ift.FieldAdapter(dom, k) for k in "abc"]
+    fails = []
+    with ift.random.Context(int(seed) + 4242):
+        d = ift.from_random(dom)
+        model = [a.exp() * b + c.tanh(), (a * b).tanh() + c.exp() * a, a * a * b + c][inp["model"] % 3]
+        lh = ift.GaussianEnergy(data=d, sampling_dtype=np.float64) @ model
+        ic = ift.AbsDeltaEnergyController(1e-14, iteration_limit=200)
+        H = ift.StandardHamiltonian(lh, ic_samp=ic, prior_sampling_dtype=np.float64)
+        pos = ift.from_random(H.domain) * 0.4
+        kl = ift.SampledKLEnergy(pos, H, int(inp["n_samples"]), None, mirror_samples=bool(inp["mirror"]),
+                                 constants=consts, point_estimates=pes)
+        for stage in ("initial", "after at()"):
+            if stage != "initial":
+                kl = kl.at(kl.position + 0.1 * ift.from_random(kl.position.domain))
+            xs = list(kl.samples.iterator())
+            eff = [k for k in consts]           # every constant key must be frozen, whether point estimate or not
+            vals, grads, offs = [], [], []
+            for smp in xs:
+                l = H(ift.Linearization.make_partial_var(smp, eff, True))
+                vals.append(float(l.val.asnumpy()[()]))
+                grads.append(l.gradient)
+                offs.append(sum(0.5 * float(np.vdot(smp[k].asnumpy(), smp[k].asnumpy())) for k in eff))
+            vref, oref = float(np.mean(vals)), float(np.mean(offs))
+            if abs(kl.value - vref) > 1e-9 * (1 + abs(vref)):
+                if abs(kl.value + oref - vref) <= 1e-9 * (1 + abs(vref)):
+                    fails.append(("value_ham", "%s: KL value lacks the prior energy of the constant keys" % stage))
+                else:
+                    fails.append(("value", "%s: KL value %r, independent sample average %r (known offset %r)" % (stage, kl.value, vref, oref)))
+            gk = sorted(kl.gradient.keys())
+            vk = sorted(k for k in H.domain.keys() if k not in eff)
+            if gk != vk:
+                fails.append(("energy_adapter", "%s: KL gradient has the keys %r, variable keys are %r" % (stage, gk, vk)))
+                continue
+            for k in vk:
+                gref = np.mean([g[k].asnumpy() for g in grads], axis=0)
+                if not np.allclose(kl.gradient[k].asnumpy(), gref, rtol=1e-9, atol=1e-11):
+                    fails.append(("jacobian", "%s: KL gradient[%s] %r, independent sample average %r" % (stage, k, kl.gradient[k].asnumpy().tolist(), gref.tolist())))
+                    break
+            t = ift.from_random(kl.gradient.domain)
+            tf = ift.MultiField.union([0. * xs[0], t])
+            mref = {k: np.mean([H(ift.Linearization.make_partial_var(smp, eff, True)).metric(tf)[k].asnumpy() for smp in xs], axis=0) for k in vk}
+            got = kl.apply_metric(t)
+            for k in vk:
+                if not np.allclose(got[k].asnumpy(), mref[k], rtol=1e-8, atol=1e-10):
+                    fails.append(("metric", "%s: KL metric[%s] %r, independent sample average %r" % (stage, k, got[k].asnumpy().tolist(), mref[k].tolist())))
+                    break
+    return fails
+
+
 def run_direct(inp):
     quiet()
+    if inp.get("what") == "kl":
+        out = []
+        for f in kl_direct(inp):
+            if f[0] == "value_ham":
+                sig = {"fn": "StandardHamiltonian", "check": "value", "explained_by": "prior energy of the constant keys"}
+            else:
+                sig = {"fn": "SampledKLEnergy", "check": f[0], "constants_not_point_estimates": sorted(set(inp["constants"]) - set(inp["point_estimates"]))}
+            out.append(((f[0], None, f[1]), sig))
+        return out
     if inp.get("what") == "vcg_complex":
         return [((f[0], None, f[1]), vcg_complex_signature(inp, f)) for f in vcg_complex_direct(inp)]
     t = B.tuple_tree(inp["tree"])
@@ -610,6 +682,12 @@ class C04(C.Check):
         for c in ctx.corpus():
             if c.get("kind") == "direct":
                 report({k: c[k] for k in ("tree", "x", "n", "K", "S", "wm", "pre") if k in c})
+        # sampled KL energies with constants that are not point estimates (samples vary along the constant keys)
+        kl_cfg = [(["a"], []), (["a"], ["c"]), (["a", "b"], ["b"]), (["b"], ["b", "c"]), (["c"], [])]
+        for i in range((4 if ctx.quick else 20) * budget):
+            cs_, pe_ = kl_cfg[i % len(kl_cfg)]
+            report({"what": "kl", "n": 2 + i % 2, "seed": ctx.seed * 100 + i, "constants": cs_, "point_estimates": pe_,
+                    "n_samples": 2 + i % 2, "mirror": i % 2 == 0, "model": i})
         # complex residuals (the Coq model is real): variable-covariance Gaussian, both keys constant in turn
         for i in range((6 if ctx.quick else 40) * budget):
             report({"what": "vcg_complex", "n": 1 + i % 3, "uff": i % 4 != 3, "wrap": ["none", "scale", "ham"][i % 3],
